@@ -250,13 +250,16 @@ def handleWeights (env : Env) (hooks : List Hook) (m : Moment) : List Int → En
       let r' := handleWeights r.1 hooks m ws
       (r'.1, r.2.1 ++ r'.2.1, r'.2.2)
 
-/-- The weights handleHooks visits: those of hooks triggered at `m` and of calls
-    pending an await at `m` — computed BEFORE anything is started — filtered by
-    the pass predicate, ascending. -/
+/-- The weights handleHooks visits — computed BEFORE anything is started: those of hooks triggered at `m`,
+    those at which a call triggered at `m` declares its await when the await names `m` itself (since
+    "fix: handleHooks visits the await weight of a call it starts at the same trigger": a call started in this
+    pass is collected in this pass; as it was: `weightsForLegacy`, Model/EnvLegacy.lean), and those of calls
+    already pending an await at `m` — filtered by the pass predicate, ascending. -/
 def weightsFor (env : Env) (hooks : List Hook) (m : Moment) (pred : Int → Bool) : List Int :=
   let hw := (hooks.filter (fun h => h.trig = m)).map (·.tw)
+  let aw := (hooks.filter (fun h => h.trig = m ∧ !h.isTask ∧ h.await = m)).map (·.aw)
   let pw := (env.pending.filter (fun p => p.1.1 = m ∧ !p.2.isEmpty)).map (·.1.2)
-  (sortDedup (hw ++ pw)).filter pred
+  (sortDedup (hw ++ aw ++ pw)).filter pred
 
 def handleHooks (env : Env) (hooks : List Hook) (m : Moment) (pred : Int → Bool) : Env × List Step × Nat :=
   handleWeights env hooks m (weightsFor env hooks m pred)
